@@ -48,6 +48,32 @@ def corner_rush(rng, algo):
             "c": cen, "bounded": True, "lo": lo, "up": up, "x0": x0, "tol": 1e-6, "maxit": 50 * n, "maxcb": 200000, "cls": "corner-rush"}
 
 
+def corner_tie(rng, algo):
+    """directed class: FOUR variables with the same Hessian entry, box, start and centre (beyond the corner along the
+    diagonal), optionally a fifth that starts at its interior optimum.  The gradient is (g,g,g,g[,0]), its norm 2|g| is
+    exact, every number is dyadic, so the first step lands all four variables EXACTLY on their faces in the same step (an
+    exact tie in binary64, no rounding): only one of them is flagged, the others are free variables lying on a face with
+    the direction pointing outwards, i.e. a bound step of length exactly 0.  First-order algorithms only (the Levenberg
+    family has the open finding F-67 on this situation)."""
+    side = rng.choice([-1.0, 1.0])
+    h = rng.choice([0.5, 1.0, 2.0])
+    lo0, up0 = rng.choice([(0.0, 4.0), (-2.0, 2.0), (1.0, 5.0)])
+    s0 = lo0 + rng.choice([1.0, 2.0, 1.5, 3.0])
+    far = rng.choice([4.0, 6.0, 8.0])
+    fifth = rng.random() < 0.6
+    n = 5 if fifth else 4
+    lam, lo, up, cen, x0 = [], [], [], [], []
+    for i in range(4):
+        lam.append(h); lo.append(lo0); up.append(up0)
+        cen.append(up0 + far if side > 0 else lo0 - far); x0.append(s0)
+    if fifth:
+        c5 = lo0 + rng.choice([1.0, 1.5, 2.5])
+        lam.append(h); lo.append(lo0); up.append(up0); cen.append(c5); x0.append(c5)
+    H = [[lam[i] if i == j else 0.0 for j in range(n)] for i in range(n)]
+    return {"algo": algo, "n": n, "exact": False, "f": "quadd", "h": lam, "Hrows": H, "lmin": min(lam), "lmax": max(lam),
+            "c": cen, "bounded": True, "lo": lo, "up": up, "x0": x0, "tol": 1e-6, "maxit": 50 * n, "maxcb": 200000, "cls": "corner-rush"}
+
+
 def run(ctx, replay):
     thms = [NS + t for t in vcheck.prop_theorems("AdeptProofs/Props/C19.lean", "C19_")]
     fails = vcheck.lean_gate(ctx, ["AdeptProofs.Props.C19"], thms, required=[NS + r for r in REQUIRED])
@@ -72,6 +98,8 @@ def run(ctx, replay):
     n_rand, n_dir = (700, 150) if ctx.tier == "quick" else (14000, 2800)
     cases = [dict(mc.gen_c19(ctx.rng), log=1) for _ in range(n_rand)]
     cases += [dict(corner_rush(ctx.rng, ctx.rng.choice(mc.ALGOS)), log=1) for _ in range(n_dir)]
+    first_order = [a for a in mc.ALGOS if not a.startswith("Levenberg")]
+    cases += [dict(corner_tie(ctx.rng, ctx.rng.choice(first_order)), log=1) for _ in range(n_dir // 2)]
     res = mc.run_cases(exe, cases)
     sig_count = collections.Counter()
     per_algo = collections.Counter()
